@@ -4,7 +4,7 @@
 ID=$1; CK=${2:-$1}
 R=${EVALREPO:-/tmp/evalrepo}; [ -d $R ] || git -C /repo worktree add --detach $R HEAD -q; git -C $R checkout -q --detach $(git -C /repo rev-parse HEAD) 2>/dev/null; export VERIF_REPO=$R VERIF_DIR=${EVALREPO:-/tmp/evalrepo}-verif; mkdir -p $VERIF_DIR; cp /verif/known_findings.json $VERIF_DIR/; cd $R || exit 2
 git checkout -q -- .
-for d in /tmp/benign/out/$ID/r*.diff; do
+for d in ${BENIGN_DIR:-/verif/benign}/$ID/r*.diff; do
   git apply "$d" || { echo "$d: DOES NOT APPLY"; continue; }
   ${GNOVERIF:-/verif/bin/gnoverif} check $CK > $VERIF_DIR/benign_eval.log 2>&1; rc=$?
   echo "== $ID→$CK $(basename $d) exit=$rc"; grep "\[$CK\]" $VERIF_DIR/benign_eval.log | cut -c1-330 | head -6
